@@ -319,9 +319,14 @@ def c11(rep, tier, seed):
 def c16(rep, tier, seed):
     """WaitGroup / OneShotEvent release every waiter exactly when the count hits zero (WaitGroup.tla)"""
     run_conc(rep, spec_wg(tier), tier, seed, {"C16"})
+    nost = _nost(spec_wg(tier), tier)
+    nost.grid = [g for g in nost.grid if set(g["wts"]) & set("iso")]  # the coroutine waiters
+    run_conc(rep, nost, tier, seed, {"C16"})
     rep.assumptions += ["sources: Done by a thread, attached / consumed futures, a bare event Set; waiters: Wait, WaitFor (+Wait "
                         "after a timeout), co_await inline / sticky / on an executor; at most one timed waiter per scenario; "
-                        "Add only inside Attach / Consume while M holds its own unit (the documented usage rule); no Reset"]
+                        "Add only inside Attach / Consume, either while M holds a unit of its own or for a single attached / "
+                        "consumed future on a count that was never zero before; no Reset; coroutine waiters also against "
+                        "the library built without symmetric transfer"]
 
 
 @check("C13")
@@ -330,6 +335,7 @@ def c13(rep, tier, seed):
     from . import coroprobe
     coroprobe.check(rep)
     run_conc(rep, spec_await(tier), tier, seed, {"C13"})
+    run_conc(rep, _nost(spec_await(tier), tier), tier, seed, {"C13"})
     # sequential semantics of every awaitable / coroutine kind / way of starting, in the three transfer configurations
     cfgs = ["CoroSeq_quick.cfg", "CoroSeq_second.cfg", "CoroSeq_rej.cfg"]
     if tier == "thorough":
@@ -351,7 +357,9 @@ def c13(rep, tier, seed):
 def c14(rep, tier, seed):
     """coroutine Mutex: mutual exclusion, no lost wake-up, FIFO, visibility (CoMutex.tla)"""
     run_conc(rep, spec_comutex(tier), tier, seed, {"C14"})
-    rep.assumptions += ["coroutines run on the harness pool (1-3 workers, FIFO queue, no visible operation of its own; its "
+    run_conc(rep, _nost(spec_comutex(tier), tier), tier, seed, {"C14"})
+    rep.assumptions += ["every scenario also against the library built without symmetric transfer (same specification)",
+                        "coroutines run on the harness pool (1-3 workers, FIFO queue, no visible operation of its own; its "
                         "submit/take synchronisation is modelled as a release/acquire pair); UnlockOn / sticky unlock target "
                         "the same pool; 2-4 coroutines x 1-3 rounds"]
 
@@ -360,6 +368,7 @@ def c14(rep, tier, seed):
 def c15(rep, tier, seed):
     """coroutine SharedMutex: writers exclude all, readers share, nobody is forgotten (CoSharedMutex.tla)"""
     run_conc(rep, spec_cosmutex(tier), tier, seed, {"C15"})
+    run_conc(rep, _nost(spec_cosmutex(tier), tier), tier, seed, {"C15"})
     # the internal spinlock every slow-path decision is taken under
     run_conc(rep, spec_spin(tier), tier, seed, {"C15"})
     rep.assumptions += ["coroutines run on the harness pool (1-3 workers); a worker that spins on the internal spinlock is not "
@@ -433,6 +442,21 @@ def _lite(spec, tier):
         spec.rand_grid = []
         spec.tail_execs = 10
         spec.mc_cfgs = list(spec.mc_cfgs)[:1]
+    return spec
+
+
+def _nost(spec, tier):
+    """the same scenarios against the library built WITHOUT symmetric transfer (Loop / Here paths instead of Next):
+    the recorded executions must be behaviours of the same specification; the model itself is checked once"""
+    spec.flavour = "fiber_nost"
+    spec.mc_cfgs = []
+    spec.paths_cfg = None
+    if tier == "quick":
+        spec.grid = spec.grid[::2]
+        spec.dfs_max = min(spec.dfs_max, 400)
+        spec.rand_execs = min(spec.rand_execs, 40)
+        spec.tail_execs = 10
+        spec.tail_boost = spec.tail_boost[:4]
     return spec
 
 
